@@ -179,63 +179,7 @@ def run(ctx):
               site=ctx.site(dc, dc.node))
 
     # ---------------------------------------------------------------- P3
-    nmove = 0
-    for fi in ikesa.methods.values():
-        g = esc.add_exception_edges(fi)
-        for n in g.nodes:
-            if n.kind != 'stmt' or not isinstance(n.ast, ast.Assign):
-                continue
-            tg = [t for t in n.ast.targets if isinstance(t, ast.Attribute) and t.attr == 'child_sas']
-            if not tg:
-                continue
-            tsrc, vsrc = src(tg[0]), src(n.ast.value)
-            if fi.name == '__init__' and vsrc == '[]':
-                continue
-            if tsrc == 'self.child_sas' and vsrc == '[]':
-                # release half of a transfer: must be dominated by the transfer
-                moves = [m for m in g.nodes if m.kind == 'stmt' and isinstance(m.ast, ast.Assign)
-                         and src(m.ast.value) == 'self.child_sas'
-                         and any(isinstance(t, ast.Attribute) and t.attr == 'child_sas' for t in m.ast.targets)]
-                ctx.check(any(n.id not in g.reach([g.entry], blocked_nodes=[m]) for m in moves), 'P3',
-                          '%s: `self.child_sas = []` only releases a list that was just handed to the successor' % fi.name,
-                          key=('P3', fi.qual, 'list-dropped'), site=ctx.site(fi, n.ast))
-                continue
-            if vsrc == 'self.child_sas' and tsrc != 'self.child_sas':
-                nmove += 1
-                ctx.functions.add(fi.qual)
-                succ = tsrc.rsplit('.', 1)[0]
-                commits = [m for m in g.nodes if m.kind == 'stmt' and isinstance(m.ast, ast.Assign)
-                           and any(common.is_self_attr(t, fi, 'state') for t in m.ast.targets)
-                           and common.state_name(m.ast.value) == 'REKEYED']
-                rel = [m for m in g.nodes if m.kind == 'stmt' and isinstance(m.ast, ast.Assign)
-                       and any(src(t) == 'self.child_sas' for t in m.ast.targets) and src(m.ast.value) == '[]']
-                ctx.check(bool(commits) and bool(rel), 'P3', '%s: the hand-over to %s has a release and a commit '
-                          '(state := REKEYED)' % (fi.name, succ), key=('P3', fi.qual, 'no-commit'), site=ctx.site(fi, n.ast))
-                # region between transfer and commit: nodes reachable from n and reaching a commit
-                between = [m for m in g.nodes if m.id in g.reach([n], follow_exc=False) and m is not n
-                           and any(c.id in g.reach([m], follow_exc=False) for c in commits)
-                           and not any(m.id in g.reach([c], follow_exc=False) and m is not c for c in commits)]
-                risky = [(m, sorted((m.raises or {}).keys())) for m in [n] + between if (m.raises or {})]
-                ctx.check(not risky, 'P3', '%s: nothing can raise between handing child_sas to %s and the commit' % (
-                    fi.name, succ), key=('P3', fi.qual, 'raise-in-handover',
-                                         risky[0][0].text()[:60] if risky else ''), site=ctx.site(fi, n.ast),
-                    detail={'may_raise': [(m.text()[:80], r) for m, r in risky]})
-                # everything before the transfer that can fail is before it: the transfer dominates the commit
-                for c in commits:
-                    ctx.check(c.id not in g.reach([g.entry], blocked_nodes=[n]), 'P3',
-                              '%s: the commit is reached only through the hand-over' % fi.name,
-                              key=('P3', fi.qual, 'commit-without-handover'), site=ctx.site(fi, c.ast))
-                # every normal path from the transfer reaches release and commit
-                for tgt, what in ((rel, 'release'), (commits, 'commit')):
-                    ctx.check(g.exit.id not in g.reach([n], blocked_nodes=tgt, follow_exc=False), 'P3',
-                              '%s: every path from the hand-over passes the %s' % (fi.name, what),
-                              key=('P3', fi.qual, 'handover-without-' + what), site=ctx.site(fi, n.ast))
-                # may-raise calls of the negotiation must come before
-                continue
-            ctx.bad('P3', ('P3', fi.qual, 'alias', src(n.ast)), '%s: unexpected (re)binding of a child_sas list: `%s`'
-                    % (fi.name, src(n.ast)), ctx.site(fi, n.ast))
-    ctx.check(nmove == 2, 'P3', 'CHILD_SAs are handed to a successor at exactly two sites (both rekey roles): %d' % nmove,
-              key=('P3', 'move-count', nmove))
+    handover_rule(ctx, esc, 'P3')
 
     # ---------------------------------------------------------------- P4
     common.deleted_observed(ctx, esc, 'P4')
@@ -283,6 +227,61 @@ def run(ctx):
     dcs = ctx.func('ikesa.IkeSa.delete_child_sas')
     ctx.functions.add(dcs.qual)
 
+    # ---------------------------------------------------------------- P5b: teardown visits every CHILD_SA
+    # a loop over the tracked list itself (not a copy) must not add or remove elements of that list - directly or through a
+    # method of the same object - or every second CHILD_SA is skipped and its kernel SAs stay behind
+    MUT = ('remove', 'pop', 'clear', 'append', 'insert', 'extend')
+    ikesa_cls = prog.cls('ikesa.IkeSa')
+
+    def direct_mutation(node):
+        for y in ast.walk(node):
+            if isinstance(y, ast.Call) and isinstance(y.func, ast.Attribute) and y.func.attr in MUT \
+                    and isinstance(y.func.value, ast.Attribute) and y.func.value.attr == 'child_sas':
+                return y
+            if isinstance(y, ast.Attribute) and y.attr == 'child_sas' and isinstance(y.ctx, (ast.Store, ast.Del)):
+                return y
+        return None
+    mutators = {f.qual for f in ikesa_cls.methods.values() if isinstance(f.node, ast.FunctionDef) and direct_mutation(f.node) is not None}
+    changed = True
+    while changed:
+        changed = False
+        for f in ikesa_cls.methods.values():
+            if f.qual in mutators or not isinstance(f.node, ast.FunctionDef):
+                continue
+            for y in walk_no_nested(f.node):
+                if isinstance(y, ast.Call) and isinstance(y.func, ast.Attribute) and isinstance(y.func.value, ast.Name) \
+                        and y.func.value.id == f.self_name:
+                    r = res.resolve_call(y, f, count=False)
+                    if any(t.qual in mutators for t in r.targets):
+                        mutators.add(f.qual)
+                        changed = True
+                        break
+    nloops = 0
+    for f in list(ikesa_cls.methods.values()) + list(prog.cls('ikesacontroller.IkeSaController').methods.values()):
+        if not isinstance(f.node, ast.FunctionDef):
+            continue
+        sv = ctx.sval(f)
+        for lp in [y for y in walk_no_nested(f.node) if isinstance(y, ast.For)]:
+            t = sv.terms.get(id(lp.iter))
+            if t is None or not (t[0] == 'attr' and t[2] == 'child_sas'):
+                continue
+            nloops += 1
+            owner = src(lp.iter.value) if isinstance(lp.iter, ast.Attribute) else None
+            bad = None
+            for st in lp.body:
+                d = direct_mutation(st)
+                if d is not None:
+                    bad = d
+                for y in ast.walk(st):
+                    if isinstance(y, ast.Call) and isinstance(y.func, ast.Attribute) and owner is not None and src(y.func.value) == owner:
+                        r = res.resolve_call(y, f, count=False)
+                        if any(t2.qual in mutators for t2 in r.targets):
+                            bad = y
+            ctx.check(bad is None, 'P5', '%s: the loop over `%s` does not change that list while walking it' % (f.name, src(lp.iter)),
+                      key=('P5', f.qual, 'mutates-while-iterating', src(lp.iter)), site=ctx.site(f, bad if bad is not None else lp),
+                      detail={'mutating call': src(bad)[:80] if bad is not None else None})
+    ctx.floor('P5 loops over a tracked child_sas list', nloops, 2)
+
     # ---------------------------------------------------------------- P6
     ctrl_init = ctx.func('ikesacontroller.IkeSaController.__init__')
     close = ctx.func('ikesacontroller.IkeSaController.close')
@@ -292,6 +291,70 @@ def run(ctx):
         ctx.check(bool(fl) and all(g.exit.id not in g.reach([g.entry], blocked_nodes=[n for n, _ in fl], follow_exc=False)
                                    for _ in [0]), 'P6', '%s flushes the SAD on every path' % fi.qual.split('.', 1)[1],
                   key=('P6', fi.qual, 'flush_sas'), site=ctx.site(fi, fi.node))
+
+
+def handover_rule(ctx, esc, rule):
+    """P3: CHILD_SAs move to the successor IKE_SA exactly when the rekey commits (state := REKEYED), on both roles, with nothing that
+    can fail in between - never when the rekey is merely requested"""
+    ikesa = ctx.prog.cls('ikesa.IkeSa')
+    nmove = 0
+    for fi in ikesa.methods.values():
+        g = esc.add_exception_edges(fi)
+        for n in g.nodes:
+            if n.kind != 'stmt' or not isinstance(n.ast, ast.Assign):
+                continue
+            tg = [t for t in n.ast.targets if isinstance(t, ast.Attribute) and t.attr == 'child_sas']
+            if not tg:
+                continue
+            tsrc, vsrc = src(tg[0]), src(n.ast.value)
+            if fi.name == '__init__' and vsrc == '[]':
+                continue
+            if tsrc == 'self.child_sas' and vsrc == '[]':
+                # release half of a transfer: must be dominated by the transfer
+                moves = [m for m in g.nodes if m.kind == 'stmt' and isinstance(m.ast, ast.Assign)
+                         and src(m.ast.value) == 'self.child_sas'
+                         and any(isinstance(t, ast.Attribute) and t.attr == 'child_sas' for t in m.ast.targets)]
+                ctx.check(any(n.id not in g.reach([g.entry], blocked_nodes=[m]) for m in moves), rule,
+                          '%s: `self.child_sas = []` only releases a list that was just handed to the successor' % fi.name,
+                          key=(rule, fi.qual, 'list-dropped'), site=ctx.site(fi, n.ast))
+                continue
+            if vsrc == 'self.child_sas' and tsrc != 'self.child_sas':
+                nmove += 1
+                ctx.functions.add(fi.qual)
+                succ = tsrc.rsplit('.', 1)[0]
+                commits = [m for m in g.nodes if m.kind == 'stmt' and isinstance(m.ast, ast.Assign)
+                           and any(common.is_self_attr(t, fi, 'state') for t in m.ast.targets)
+                           and common.state_name(m.ast.value) == 'REKEYED']
+                rel = [m for m in g.nodes if m.kind == 'stmt' and isinstance(m.ast, ast.Assign)
+                       and any(src(t) == 'self.child_sas' for t in m.ast.targets) and src(m.ast.value) == '[]']
+                ctx.check(bool(commits) and bool(rel), rule, '%s: the hand-over to %s has a release and a commit '
+                          '(state := REKEYED)' % (fi.name, succ), key=(rule, fi.qual, 'no-commit'), site=ctx.site(fi, n.ast))
+                # region between transfer and commit: nodes reachable from n and reaching a commit
+                between = [m for m in g.nodes if m.id in g.reach([n], follow_exc=False) and m is not n
+                           and any(c.id in g.reach([m], follow_exc=False) for c in commits)
+                           and not any(m.id in g.reach([c], follow_exc=False) and m is not c for c in commits)]
+                risky = [(m, sorted((m.raises or {}).keys())) for m in [n] + between if (m.raises or {})]
+                ctx.check(not risky, rule, '%s: nothing can raise between handing child_sas to %s and the commit' % (
+                    fi.name, succ), key=(rule, fi.qual, 'raise-in-handover',
+                                         risky[0][0].text()[:60] if risky else ''), site=ctx.site(fi, n.ast),
+                    detail={'may_raise': [(m.text()[:80], r) for m, r in risky]})
+                # everything before the transfer that can fail is before it: the transfer dominates the commit
+                for c in commits:
+                    ctx.check(c.id not in g.reach([g.entry], blocked_nodes=[n]), rule,
+                              '%s: the commit is reached only through the hand-over' % fi.name,
+                              key=(rule, fi.qual, 'commit-without-handover'), site=ctx.site(fi, c.ast))
+                # every normal path from the transfer reaches release and commit
+                for tgt, what in ((rel, 'release'), (commits, 'commit')):
+                    ctx.check(g.exit.id not in g.reach([n], blocked_nodes=tgt, follow_exc=False), rule,
+                              '%s: every path from the hand-over passes the %s' % (fi.name, what),
+                              key=(rule, fi.qual, 'handover-without-' + what), site=ctx.site(fi, n.ast))
+                # may-raise calls of the negotiation must come before
+                continue
+            ctx.bad(rule, (rule, fi.qual, 'alias', src(n.ast)), '%s: unexpected (re)binding of a child_sas list: `%s`'
+                    % (fi.name, src(n.ast)), ctx.site(fi, n.ast))
+    ctx.check(nmove == 2, rule, 'CHILD_SAs are handed to a successor at exactly two sites (both rekey roles): %d' % nmove,
+              key=(rule, 'move-count', nmove))
+
 
 
 def check_no_swallow(ctx, esc, ts, fi, escaping, graph, elem):
